@@ -332,6 +332,23 @@ func runC19(t *testing.T, tape *sim.Tape, tier string) *Outcome {
 				inexec.sent = len(inexec.stream)
 			}
 			cl.settle(4000)
+			// ... and, in half of these runs, two TLS sessions whose clients have vanished (reset) without the server
+			// having noticed: their goroutines wait for the command lock, and closing them fails (close_notify
+			// cannot be sent). Whatever Stop reports then, it returns and releases everything
+			var vanished []*tlsClient
+			if tape.Draw(2, "vanished-tls") == 1 {
+				for i := 0; i < 2; i++ {
+					vanished = append(vanished, cl.addTLSClient(fmt.Sprintf("vanish%d", i), tlsAddr, p.ClientConfig(p.Right), [][]byte{resp.Cmd("GET", "vanish")}))
+				}
+				cl.settle(4000)
+				for _, v := range vanished {
+					if v.P != nil {
+						v.P.Ends[0].Reset(false)
+					}
+				}
+				cl.settle(4000)
+				o.stat("stop_with_two_vanished_tls_peers", 1)
+			}
 			o.stat("stop_with_connection_executing", 1)
 			o.stat("stop_with_connection_mid_handshake", 1)
 			o.stat("stop_with_connection_mid_request", 1)
@@ -367,7 +384,9 @@ func runC19(t *testing.T, tape *sim.Tape, tier string) *Outcome {
 			cl.settle(4000)
 			releaseExec = true
 			cl.settle(4000)
-			if err := cl.lifeErr[len(cl.lifeErr)-1]; err != nil && !strings.HasPrefix(listenerFault, "close-error") {
+			if cl.lifeDone < len(cl.lifeOps) {
+				o.violate("c19:stop-did-not-return", "Stop has not returned although nothing is left to run (listener fault %q, %d vanished TLS peers); parked %v", listenerFault, len(vanished), taskList(cl.S.Parked()))
+			} else if err := cl.lifeErr[len(cl.lifeErr)-1]; err != nil && !strings.HasPrefix(listenerFault, "close-error") && len(vanished) == 0 {
 				o.violate("c19:stop-failed", "Stop returned %v (listener fault: %q)", err, listenerFault)
 			}
 			if open := cl.N.OpenServerEnds(); len(open) > 0 {
@@ -448,7 +467,7 @@ func init() {
 	register(&Check{
 		ID: "C19", Bubble: true, Run: runC19,
 		Runs:   map[string]int{"quick": 800, "thorough": 2400},
-		Rule:   "a case (evaluation) is one connection lifetime inside a churn run: plain and TLS ports, optional common-name rule, reference store; each run opens 30 (thorough 1500) connections in batches with up to 1..32 in flight, each ended by a drawn mode {FIN at a request boundary or inside a request (half-close/close), RST at boundary/inside, QUIT (a third of them followed by a client that keeps sending a byte every 400 ms for a simulated minute: the socket must be closed within 30 s all the same), malformed frame, write failure after the client stopped reading, TLS garbage / abort after ClientHello / untrusted certificate / certificate rejected by the rule, TLS session then close or reset, idle then close}, interleaved by the seeded scheduler; some stay idle across batches; a third of the runs end with Stop (half of them after a Start that fails because the server is running) while connections are idle, mid-request, mid-handshake, inside a handler call and blocked in a reply write, three in eight of them after a listener fault (accept loop dead after EMFILE; listener Close error); accounting (socket closed, goroutine gone, registry entry gone; idle baseline at the end) at every drain point; distinct = distinct event-log hashes of runs",
+		Rule:   "a case (evaluation) is one connection lifetime inside a churn run: plain and TLS ports, optional common-name rule, reference store; each run opens 30 (thorough 1500) connections in batches with up to 1..32 in flight, each ended by a drawn mode {FIN at a request boundary or inside a request (half-close/close), RST at boundary/inside, QUIT (a third of them followed by a client that keeps sending a byte every 400 ms for a simulated minute: the socket must be closed within 30 s all the same), malformed frame, write failure after the client stopped reading, TLS garbage / abort after ClientHello / untrusted certificate / certificate rejected by the rule, TLS session then close or reset, idle then close}, interleaved by the seeded scheduler; some stay idle across batches; a third of the runs end with Stop (half of them after a Start that fails because the server is running) while connections are idle, mid-request, mid-handshake, inside a handler call and blocked in a reply write, in half of them also two TLS sessions whose peers were reset unnoticed, three in eight of them after a listener fault (accept loop dead after EMFILE; listener Close error); accounting (socket closed, goroutine gone, registry entry gone; idle baseline at the end) at every drain point; distinct = distinct event-log hashes of runs",
 		Real:   []string{"redis.Server accept loops, TLS handshake goroutine, connection loop, ConnManager, Stop", "crypto/tls"},
 		Stub:   []string{"network: simulated (descriptor count = server-side ends not yet closed; real descriptors do not exist in the simulation)", "handler: reference store"},
 		Assume: []string{"the idle baseline is the set of parked server tasks right after Start (one accept loop per enabled port)"},
